@@ -20,6 +20,10 @@ case kinds
       -> ["ok", [bool, ...], [[[region, coremask], ...] per read]]
   {"mode": "history", "calls": [case, ...]}   compress / tree cases run one after the other in ONE interpreter
       -> ["ok", [result of each call, ...]]
+  {"mode": "ffa", "calls": [{"kind": "fill" | "load", "form": "two" | "map", "apps": [{"targets", "container"}],
+                             "reuse": null | {"edits": [["add" | "discard", x, y, p]], "newdict": bool}, "fail": [[x, y, p]]}]}
+      MachineController.flood_fill_aplx / load_application on one controller with a recording _send_scp
+      -> ["ok", [{"fills": [[[arg1, arg2], ...], ...], "orders": [...], "exc": name or null}, ...]]
   {"mode": "enum4", "bx", "by", "a", "b", "cls", "lo", "hi"}   (thorough tier: exhaustive 4 x 4 block)
       -> ["ok", [[[region, coremask], ...] or exception name, ...]]   one entry per mask in range(lo, hi)
 """
@@ -112,6 +116,8 @@ def run_case(c):
         except Exception as e:
             return ["other", type(e).__name__]
         return ["ok", rets, reads]
+    if c["mode"] == "ffa":
+        return run_ffa(c)
     if c["mode"] == "history":
         return ["ok", [run_case(call) for call in c["calls"]]]
     if c["mode"] == "chips":
@@ -145,6 +151,119 @@ def run_case(c):
 def enum_b(cls, mask, i):
     """Is core b requested on chip i?  0: never, 1: where a is, 2: where a is not, 3: everywhere."""
     return [False, bool(mask >> i & 1), not (mask >> i & 1), True][cls]
+
+
+def build_cores(kind, cores):
+    """The caller's per-chip core collection."""
+    if kind == "set":
+        return set(cores)
+    if kind == "frozenset":
+        return frozenset(cores)
+    if kind == "list":
+        return list(cores)
+    if kind == "tuple":
+        return tuple(cores)
+    if kind == "iter":
+        return iter(list(cores))                      # one-shot
+    if kind == "gen":
+        return (p for p in list(cores))               # one-shot
+    if kind == "filter":
+        return filter(lambda p: True, list(cores))    # one-shot on Python 3
+    raise ValueError(kind)
+
+
+def run_ffa(c):
+    """MachineController.flood_fill_aplx / load_application on ONE controller whose _send_scp is a recorder.
+    -> ["ok", [{"fills": [[[arg1, arg2], ...] per flood fill, in send order], "orders": [...], "exc": name or None}]]
+    A flood fill is what lies between a flood-fill-start and a flood-fill-end packet; of the nearest-neighbour
+    packets in between the raw (arg1, arg2) are returned (the harness decodes them)."""
+    import types
+    import rig.machine_control.machine_controller as mcm
+    from rig.machine_control import consts
+
+    class FakeConnection(object):
+        def __init__(self, *a, **k):
+            pass
+
+        def close(self):
+            pass
+    mcm.SCPConnection = FakeConnection
+    mcm.time = types.SimpleNamespace(sleep=lambda s: None, time=lambda: 0.0)
+    mc = mcm.MachineController("recorder")
+    log = []
+
+    def send(x, y, p, cmd, arg1=0, arg2=0, arg3=0, data=b"", *a, **k):
+        log.append((int(cmd), operator.index(arg1), operator.index(arg2)))
+        return types.SimpleNamespace(arg1=0, arg2=0, arg3=0, data=b"")
+    mc._send_scp = send
+    mc._scp_data_length = 256
+    mc.read_struct_field = lambda *a, **k: 0x70000000
+    mc.send_signal = lambda *a, **k: None
+    state = dict(round=0, failing=set())
+    orig_fill = mc.flood_fill_aplx
+
+    def counting_fill(*a, **k):
+        state["round"] += 1
+        return orig_fill(*a, **k)
+    mc.flood_fill_aplx = counting_fill
+    mc.read_vcpu_struct_field = lambda field, x, y, p: (
+        int(consts.AppState.run) if state["round"] == 1 and (x, y, p) in state["failing"] else int(consts.AppState.wait))
+    names = ["app%d.aplx" % i for i in range(4)]
+    for n in names:
+        with open(n, "wb") as f:
+            f.write(b"\0" * 8)
+    results = []
+    objects = None            # the per-chip core objects of the previous call (single application)
+    for call in c["calls"]:
+        apps = []
+        orders = []
+        if call.get("reuse") is not None and objects is not None:
+            for op, x, y, p in call["reuse"]["edits"]:
+                getattr(objects[(x, y)], op)(p)
+            targets = objects if not call["reuse"]["newdict"] else OrderedDict(objects.items())
+            orders.append([[x, y, p] for (x, y), ps in targets.items() for p in ps])
+            apps.append(targets)
+        else:
+            for app in call["apps"]:
+                t = OrderedDict()
+                order = []
+                for x, y, cores in app["targets"]:
+                    obj = build_cores(app["container"], cores)
+                    order += [[x, y, p] for p in (obj if app["container"] in ("set", "frozenset") else cores)]
+                    t[(x, y)] = obj
+                apps.append(t)
+                orders.append(order)
+        objects = apps[0] if len(apps) == 1 and all(isinstance(v, set) for v in apps[0].values()) else None
+        del log[:]
+        state["round"] = 0
+        state["failing"] = set(tuple(q) for q in call.get("fail", []))
+        exc = None
+        try:
+            if call["form"] == "two":
+                args = (names[0], apps[0])
+            else:
+                args = (OrderedDict((names[i], t) for i, t in enumerate(apps)),)
+            if call["kind"] == "fill":
+                orig_fill(*args, app_id=30)
+            else:
+                mc.load_application(*args, app_id=30, use_count=False)
+        except Exception as e:      # noqa
+            exc = type(e).__name__
+        fills, cur = [], None
+        for cmd, a1, a2 in log:
+            if cmd != int(consts.SCPCommands.nearest_neighbour_packet):
+                continue
+            if (a1 >> 24) == int(consts.NNCommands.flood_fill_start):
+                cur = []
+            elif (a1 >> 24) == int(consts.NNCommands.flood_fill_end):
+                fills.append(cur if cur is not None else [])
+                cur = None
+            elif cur is not None:
+                cur.append([a1, a2])
+        if cur is not None:
+            fills.append(cur)             # a fill that was started and not ended (exception)
+        results.append(dict(fills=fills, orders=orders, exc=exc))
+    return ["ok", results]
 
 
 def run_case_forked(c):
